@@ -767,7 +767,7 @@ pub fn run(tier: Tier) -> i32 {
         setup.files.push(("/tmp/empty".into(), vec![], 0o644));
         let r = vsh::run_once(&setup, &Default::default());
         script_runs += 1;
-        let got: Vec<String> = r.all_trace().into_iter().filter(|t| !t.starts_with("fds exec")).collect();
+        let got: Vec<String> = r.all_trace().into_iter().filter(|t| !t.starts_with("fds exec") && !t.starts_with("execpath:")).collect();
         if got != sc.expected || r.panic.is_some() {
             ctx.violation(
                 "c16:script",
